@@ -101,11 +101,22 @@ def suite_of(name):
     return re.sub(r"[-0-9s]+$", "", re.sub(r"-\d+(-\w+)?$", "", name)) or name
 
 
+def action_coverage(out):
+    """last -coverage block: action name -> (distinct, taken)"""
+    cov = {}
+    for m in re.finditer(r"^<(\w+) line [^>]*>: (\d+):(\d+)", out, re.M):
+        cov[m.group(1)] = (int(m.group(2)), int(m.group(3)))
+    return cov
+
+
 def run(c):
     # 1. design level
     cfg = "Stream_mc.cfg" if c.quick else "Stream_mc_thorough.cfg"
     r = c.tlc_must_pass("Stream", cfg, workers=4, timeout=c.pick(400, 1500), coverage=True)
-    zero = [a for a, (d, t) in r.coverage.items() if a.startswith("MC") and t == 0 and a != "MCReadPendingLastStuck"]
+    cover = action_coverage(r.out)
+    mcacts = ["MCBegin", "MCEncode", "MCClose", "MCRemove", "MCOpen", "MCReadEOF", "MCReadFetch", "MCReadPendingMore",
+              "MCReadPendingLast", "MCDecodeValue", "MCDecodeEOF", "MCDone"]
+    zero = [a for a in mcacts if cover.get(a, (0, 0))[1] == 0]
     if zero:
         raise vlib.InfraError("vacuity: actions never taken in %s: %s" % (cfg, zero))
     # the finding action switched on: TLC must refute the read-back property (and only that one)
@@ -193,9 +204,9 @@ def run(c):
         reads=reads, reads_filling_buffer=partial, values_decoded=decodes, btree_scans=observes, max_chunk_bytes=maxlen,
         traces_clean=len([1 for s in ends.values() if False in s]), traces_needing_finding_action=len(stuck),
         design_model=dict(cfg=cfg, states=r.distinct, transitions=r.generated, depth=r.depth,
-                          coverage_actions={k: list(v) for k, v in r.coverage.items() if k.startswith("MC")}),
+                          coverage_actions={k: list(v) for k, v in cover.items() if k.startswith("MC")}),
         finding_model=dict(cfg="Stream_mc_stuck.cfg", refuted=rs.violated,
-                           coverage_stuck_action=list(rs.coverage.get("MCReadPendingLastStuck", (0, 0)))),
+                           coverage_stuck_action=list(action_coverage(rs.out).get("MCReadPendingLastStuck", (0, 0)))),
     ))
     c.assumptions += ["one chunk = one Encoder.Encode call; raw chunk API (AddChunk/UpdateChunk/RemoveChunk) not exercised",
                       "single process, one transaction at a time; filesystem backend, in-memory L2 cache",
